@@ -1003,6 +1003,19 @@ class AbsInt:
                 kwargs[kw.arg] = v
         if isinstance(e.func, ast.Name) and e.func.id == 'isinstance' and 'isinstance' not in env and len(args) == 2:
             return self.isinstance_(args, e)
+        if isinstance(e.func, ast.Name) and e.func.id in ('hasattr', 'getattr') and e.func.id not in env and len(args) >= 2 \
+                and isinstance(args[0], AObj) and isinstance(args[1], str):
+            obj, nm = args[0], args[1]
+            present = nm in obj.attrs
+            if not present and obj.cls is not None:
+                present = self.p.class_attr(obj.cls, nm) is not None or self.p.lookup_method(obj.cls, nm)[1] is not None
+            if e.func.id == 'hasattr':
+                return present
+            if present:
+                return self._v_Attribute(ast.copy_location(ast.Attribute(value=e.args[0], attr=nm, ctx=ast.Load()), e), env, m)
+            if len(args) > 2:
+                return args[2]
+            raise AbsRaise('AttributeError', e, implicit=True)
         if isinstance(e.func, ast.Name) and e.func.id == 'vars' and 'vars' not in env and len(args) == 1:
             if isinstance(args[0], AObj):
                 view = ADict()
@@ -1058,6 +1071,8 @@ class AbsInt:
                 return AList(items, f.__name__)
             if isinstance(src, ADict):
                 return list(src.d.keys())
+            if isinstance(src, (list, tuple)) and not _is_concrete(src):
+                return AList(list(src), f.__name__)
             if _is_concrete(src):
                 try:
                     return AList(list(src), f.__name__) if not all(_is_concrete(x) for x in src) else f(src)
@@ -1117,6 +1132,15 @@ class AbsInt:
 
     def isinstance_(self, args, node):
         v, t = args
+        if isinstance(v, AObj) and v.cls is not None:
+            cands = t if isinstance(t, (tuple, list)) else [t]
+            if isinstance(t, AList):
+                cands = t.items
+            if all(isinstance(c, ClassRef) for c in cands):
+                return any(self.p.is_subclass(v.cls, c.info) for c in cands)
+        if isinstance(t, ClassRef) and not isinstance(v, (AObj, Opaque)):
+            # a plain value is never an instance of a class of the program
+            return False
         if hasattr(v, 'py_type'):
             names = unparse(node.args[1])
             return v.py_type in names
